@@ -465,7 +465,7 @@ func Drive(w *ev.Writer, o Opts) {
 	d := &driver{w: w, r: rand.New(rand.NewSource(o.Seed*1000003 + int64(o.Shard)*7919 + 17))}
 	rounds := 40
 	if o.Tier == "thorough" {
-		rounds = 2000
+		rounds = 3000
 	}
 	for i := 0; i < rounds; i++ {
 		raw, url := d.encode()
